@@ -47,7 +47,7 @@ pub fn gen(rng: &mut Prng) -> Cfg {
     let pol = *rng.pick(&[Pol::Lru, Pol::Lfu, Pol::Fifo]);
     let default_policy = pol == Pol::Lru && rng.chance(0.3);
     let max_size = rng.range(1, 4) as usize;
-    let ttl_us = *rng.pick(&[None, None, Some(10_000u64), Some(10_000), Some(1_000_000)]);
+    let ttl_us = *rng.pick(&[None, None, Some(10_000u64), Some(10_000), Some(1_000_000), Some(0), Some(1000)]);
     let n_svcs = if rng.chance(0.3) { 2 } else { 1 };
     let shared = rng.chance(0.5);
     let n_keys = rng.range(3, 6) as u32;
@@ -55,7 +55,7 @@ pub fn gen(rng: &mut Prng) -> Cfg {
     let overlap = *rng.pick(&[0.0, 0.15, 0.4]);
     let mut t = 0u64;
     let mut reqs = vec![];
-    let ttl = ttl_us.unwrap_or(10_000);
+    let ttl = ttl_us.unwrap_or(10_000).max(2000);
     // skew: a hot key makes LFU frequencies differ
     let hot = rng.below(n_keys as u64) as u32;
     for _ in 0..steps {
